@@ -67,6 +67,16 @@ def run_labelled(algo, O, S, leafmap, leafsyn, costs, policy, rootsyn=None, keep
         if pres["same_labels"] and O.is_binary() and S.is_binary():
             onames = {v: ("90" if O.children[v] else f"o{v}") for v in range(O.n)}
         inp, onode, snode = A.build_input(O, S, leafmap, costs, ls, unordered=not is_ord, rootsyn=rs, onames=onames)
+        if pres["same_labels"] and sum(leafmap.values()) % 2 == 0 and O.is_binary() and S.is_binary():
+            # operation history (one input in six): the OTHER solvers that accept this input object have been run on it first
+            # - for an ordered input also the unordered ones, which read the same leaf lists as sets, and the base variant
+            # before the extended one; none of them may leave a trace in the caller's input
+            for other in (("superdtl", "base_uspfs", "base_spfs") if is_ord else ("base_uspfs", "superdtl")):
+                if other != algo and not (rs is not None and SOLVERS[other][1] != "ordered"):
+                    try:
+                        list(SOLVERS[other][0](inp, A.POLICY["ANY"]))
+                    except Exception:
+                        pass        # the other solver's own failures are its own check's business
     r = Result()
     try:
         outs = list(fn(inp, A.POLICY[policy]))
